@@ -292,16 +292,45 @@ def rule_expand(ctx):
     f = ctx.func(COM, "expand")
     flow = Flow(f)
     sels = {}
+    from ..flow import elementwise
+    from ..core import clone
+
+    def instances(c):
+        """[substitution of loop variables] for a call inside a parallel loop (zip / enumerate / range over at most two elements): one per element"""
+        lp = parent(enclosing_stmt(c))
+        while lp is not None and not isinstance(lp, (ast.For, ast.FunctionDef)):
+            lp = parent(lp)
+        if not isinstance(lp, ast.For):
+            return [{}]
+        m = elementwise(lp.target, lp.iter)
+        if m is None:
+            raise AnalysisError("expand: selection inside a loop that is not element-wise: for %s in %s" % (norm(lp.target), norm(lp.iter)))
+        out = []
+        for k_ in (0, 1):
+            class K(ast.NodeTransformer):
+                def visit_Name(self, n):
+                    return ast.Constant(k_) if n.id == "_i" else n
+            out.append({nm: K().visit(clone(e_)) for nm, e_ in m.items()})
+        return out
+
+    def subst(e, env, at):
+        class S(ast.NodeTransformer):
+            def visit_Name(self, n):
+                return clone(env[n.id]) if isinstance(n.ctx, ast.Load) and n.id in env else n
+        e = ast.fix_missing_locations(S().visit(clone(e)))
+        # literal sequences indexed by a constant are folded (resolve_under does the folding)
+        return flow.resolve_under(e, {}, at=at, depth=3, stop=("groups", "pairs"))
     for c in calls_in(f.node, "isel"):
         dicts = [k.value for k in c.keywords if k.arg is None] + list(c.args[:1])
         for dv in dicts:
             dv = flow.resolve(dv, at=c, depth=1, stop=("groups", "pairs"))
             if isinstance(dv, ast.Dict) and len(dv.keys) == 1 and dv.keys[0] is not None:
-                key = norm(flow.resolve(dv.keys[0], at=c, depth=2, stop=("groups", "pairs"))).replace('"', "'")
-                val = norm(flow.resolve(dv.values[0], at=c, depth=2, stop=("groups", "pairs")))
-                st = enclosing_stmt(c)
-                cond = [norm(a.test) for a in _ancestors_if(st)]
-                sels[key] = (val, cond, c)
+                for env in instances(c):
+                    key = norm(subst(flow.resolve(dv.keys[0], at=c, depth=2, stop=("groups", "pairs")), env, c)).replace('"', "'")
+                    val = norm(subst(flow.resolve(dv.values[0], at=c, depth=2, stop=("groups", "pairs")), env, c))
+                    st = enclosing_stmt(c)
+                    cond = [norm(a.test) for a in _ancestors_if(st)]
+                    sels[key] = (val, cond, c)
     for k in (0, 1):
         key = "groups[%d] + '/collocation'" % k
         got = sels.get(key)
